@@ -182,6 +182,15 @@ def generate(rng, tier, scale, **focus):
         mode = rng.random()
         if mode < 0.45 or not steps:
             pass                                    # valid path (may be shorter than asked)
+        elif mode < 0.57:
+            # boundary indices of a sequence: -n-1, -2n, -n, n, n-1 (just outside / just inside)
+            cands = [i for i, (_, _, cur) in enumerate(walk) if isinstance(cur, dict) and 'r' in cur
+                     and heap[cur['r']]['k'] in ('list', 'tuple')]
+            if cands:
+                k = rng.choice(cands)
+                n_ = len(heap[walk[k][2]['r']]['v'])
+                steps[k] = ('idx', {'i': rng.choice([-n_ - 1, -2 * n_, -n_, n_, n_ - 1, -n_ - 2, -2 * n_ - 1, 2 * n_])})
+                steps = steps[:k + 1] + [s_ for s_ in steps[k + 1:]][:rng.randint(0, 2)]
         elif mode < 0.75:
             k = rng.randrange(len(steps))           # plant an invalid segment at position k
             kind = steps[k][0]
